@@ -29,6 +29,9 @@ func verifHarness_C09_panic() {
 		code = verifInt("code")
 		verifAssume(verifAnd(code >= 100, code <= 599))
 	}
+	// how the handler crashes: an explicit panic, or by committing a status code that the
+	// underlying writer refuses with a panic (net/http does for codes outside 100..999)
+	badStatus := onErr == 0 && !wroteBefore && verifChoice("crashKind", 2) == 1
 	tr := &verifTrace{}
 	panicked := false
 	lateEnter := false
@@ -65,11 +68,19 @@ func verifHarness_C09_panic() {
 			}
 			if i == p && !after && !panicked {
 				panicked = true
+				if badStatus {
+					c.SetStatus(1000)
+					c.WriteString("x")
+				}
 				panic(pv)
 			}
 			c.Next()
 			if i == p && !panicked {
 				panicked = true
+				if badStatus {
+					c.SetStatus(1000)
+					c.WriteString("x")
+				}
 				panic(pv)
 			}
 			tr.leave(i + 1)
@@ -125,11 +136,24 @@ func verifHarness_C09_panic() {
 		method = "POST"
 	}
 	rec := verifNewWriter()
+	rec.strictCodes = badStatus
 	var escaped any
 	func() {
 		defer func() { escaped = recover() }()
 		r.ServeHTTP(rec, verifRequest(method, path))
 	}()
+	if badStatus {
+		// the panic comes out of the writer; no status can be committed for this request
+		verifAssert(panicked, "the crash point was reached")
+		if hook == 0 {
+			verifAssert(escaped != nil, "without a hook the panic propagates to the caller")
+		} else {
+			verifAssert(escaped == nil, "with a hook the panic does not escape ServeHTTP (also when the commit itself is what panicked)")
+			verifAssert(hookRuns == 1, "the hook runs exactly once")
+		}
+		verifCover("C09 crash scenario")
+		return
+	}
 	verifAssert(panicked, "the crash point was reached")
 	verifAssert(!lateEnter, "no handler starts after the panic")
 	verifAssert(!onErrRanAfterPanic, "the OnError handler does not run after a panic either")
